@@ -10,7 +10,6 @@ import (
 
 	"github.com/youchainhq/go-youchain/common"
 	"github.com/youchainhq/go-youchain/core/state"
-	"github.com/youchainhq/go-youchain/core/types"
 	"github.com/youchainhq/go-youchain/params"
 
 	"verif/checks/stx"
@@ -29,15 +28,15 @@ type Sys struct {
 	twin     bool // twin instances (root recomputation) do no oracle work
 	r        *mc.Run
 
-	db     state.Database
-	roots  [3]common.Hash
-	st     *state.StateDB
-	snaps  []snap
-	hist   []string
-	wnonce uint64
-	dead   bool
-	viols  []mc.Violation
-	ntx    int
+	db    state.Database
+	roots [3]common.Hash
+	st    *state.StateDB
+	snaps []snap
+	hist  []string
+	mut   stx.Mut
+	dead  bool
+	viols []mc.Violation
+	ntx   int
 }
 
 func newSys(r *mc.Run, alphabet string) *Sys {
@@ -63,7 +62,7 @@ func (s *Sys) buildBase() {
 	stx.CreateVal(st, 0, stx.Tok(10, 7), params.ValidatorOnline)
 	stx.CreateVal(st, 2, stx.Tok(4, 0), params.ValidatorOffline)
 	st.UpdateDelegation(stx.Acc[2], st.GetValidatorByMainAddr(stx.ValAddr[0]), stx.Tok(2, 1))
-	st.AddWithdrawRecord(mkRecord(1000))
+	st.AddWithdrawRecord(stx.MkRecord(1000))
 	r0, r1, r2, err := st.Commit(true)
 	if err != nil {
 		panic(err)
@@ -71,25 +70,12 @@ func (s *Sys) buildBase() {
 	s.db, s.roots = db, [3]common.Hash{r0, r1, r2}
 }
 
-func mkRecord(nonce uint64) *state.WithdrawRecord {
-	rec := state.NewWithdrawRecord()
-	rec.Operator = stx.Acc[0]
-	rec.Nonce = nonce
-	rec.Validator = stx.ValAddr[0]
-	rec.Recipient = stx.Acc[1]
-	rec.InitialBalance = big.NewInt(int64(nonce))
-	rec.FinalBalance = big.NewInt(int64(nonce))
-	rec.CreationHeight = 1
-	rec.CompletionHeight = 5 + nonce
-	return rec
-}
-
 func (s *Sys) Reset() {
 	st, err := state.New(s.roots[0], s.roots[1], s.roots[2], s.db)
 	if err != nil {
 		panic(err)
 	}
-	s.st, s.snaps, s.hist, s.wnonce, s.dead, s.viols, s.ntx = st, s.snaps[:0], s.hist[:0], 0, false, nil, 0
+	s.st, s.snaps, s.hist, s.mut, s.dead, s.viols, s.ntx = st, s.snaps[:0], s.hist[:0], stx.Mut{}, false, nil, 0
 	st.Prepare(common.BigToHash(big.NewInt(1)), common.Hash{}, 0)
 }
 
@@ -159,105 +145,10 @@ func normMsg(m string) string {
 
 func (s *Sys) apply(op string, idx int) string {
 	st := s.st
-	one := big.NewInt(1)
+	if ob, ok := s.mut.Apply(st, op, idx); ok {
+		return ob
+	}
 	switch op {
-	case "bal(A0)":
-		st.AddBalance(stx.Acc[0], one)
-	case "bal(A1)":
-		st.AddBalance(stx.Acc[1], one)
-	case "touch(A1)":
-		st.AddBalance(stx.Acc[1], new(big.Int))
-	case "nonce(A0)":
-		st.SetNonce(stx.Acc[0], st.GetNonce(stx.Acc[0])+1)
-	case "store(A0)":
-		cur := st.GetState(stx.Acc[0], stx.Slots[0]).Big()
-		nv := new(big.Int).Add(cur, one)
-		if nv.Cmp(big.NewInt(9)) >= 0 {
-			nv.SetInt64(0) // wraps through deletion of the slot
-		}
-		st.SetState(stx.Acc[0], stx.Slots[0], common.BigToHash(nv))
-	case "code(A1)":
-		st.SetCode(stx.Acc[1], append(st.GetCode(stx.Acc[1]), 0x01))
-	case "suicide(A0)":
-		return fmt.Sprint(st.Suicide(stx.Acc[0]))
-	case "create(A1)":
-		st.CreateAccount(stx.Acc[1])
-	case "log":
-		st.AddLog(&types.Log{Address: stx.Acc[0], Data: []byte{byte(idx)}})
-	case "refund":
-		st.AddRefund(1)
-
-	case "vcreate(V1)":
-		return fmt.Sprint(stx.CreateVal(st, 1, stx.Tok(3, 5), params.ValidatorOffline) != nil)
-	case "vdeposit(V0)": // teDeposit pattern
-		old := st.GetValidatorByMainAddr(stx.ValAddr[0])
-		if old == nil {
-			return "absent"
-		}
-		nv := old.PartialCopy()
-		v := stx.Tok(1, 500000000000000000)
-		nv.SelfToken.Add(nv.SelfToken, v)
-		ns := params.YOUToStake(nv.SelfToken)
-		delta := new(big.Int).Sub(ns, nv.SelfStake)
-		nv.SelfStake.Set(ns)
-		nv.Token.Add(nv.Token, v)
-		nv.Stake.Add(nv.Stake, delta)
-		return fmt.Sprint(st.UpdateValidator(nv, old))
-	case "vstatus(V0)": // teChangeStatus pattern
-		old := st.GetValidatorByMainAddr(stx.ValAddr[0])
-		if old == nil {
-			return "absent"
-		}
-		nv := old.PartialCopy()
-		nv.Status = 1 - old.Status
-		nv.UpdateLastActive(uint64(idx + 1))
-		return fmt.Sprint(st.UpdateValidator(nv, old))
-	case "vreward(V0)": // endblock.go blockRewards pattern: copy kept as old, live object edited
-		val := st.GetValidatorByMainAddr(stx.ValAddr[0])
-		if val == nil {
-			return "absent"
-		}
-		old := val.PartialCopy()
-		val.AddTotalRewards(big.NewInt(11))
-		return fmt.Sprint(st.UpdateValidator(val, old))
-	case "dlg+(V0)": // teDelegationAdd
-		val := st.GetValidatorByMainAddr(stx.ValAddr[0])
-		if val == nil {
-			return "absent"
-		}
-		_, _, _, fl := st.UpdateDelegation(stx.Acc[2], val, stx.Tok(1, 3))
-		return fmt.Sprint(fl)
-	case "dlg-(V0)": // teDelegationSub: never more than what is there
-		val := st.GetValidatorByMainAddr(stx.ValAddr[0])
-		if val == nil {
-			return "absent"
-		}
-		df := val.GetDelegationFrom(stx.Acc[2])
-		if df == nil {
-			return "none"
-		}
-		w := stx.Tok(1, 3)
-		if w.Cmp(df.Token) > 0 {
-			w.Set(df.Token)
-		}
-		_, _, _, fl := st.UpdateDelegation(stx.Acc[2], val, new(big.Int).Neg(w))
-		return fmt.Sprint(fl)
-	case "wadd":
-		s.wnonce++
-		st.AddWithdrawRecord(mkRecord(s.wnonce))
-	case "wrem":
-		if st.GetWithdrawQueue().Len() == 0 {
-			return "empty"
-		}
-		st.RemoveWithdrawRecords([]int{0})
-
-	case "wremL": // first and last record in one call
-		n := st.GetWithdrawQueue().Len()
-		if n < 2 {
-			return "short"
-		}
-		st.RemoveWithdrawRecords([]int{0, n - 1})
-
 	case "snap":
 		id := st.Snapshot()
 		ob := ""
